@@ -16,6 +16,8 @@ are computed by the two servers as for any other line. Deterministic in the seed
 import random, re
 
 KS = [6, 7, 8, 14, 15, 16, 17, 30, 31, 32, 33, 62, 63, 64, 65]
+# strings only: the same boundaries further out (a block-wise scanner that switches on above 128 / 256 bytes)
+KS_LONG = [94, 95, 96, 126, 127, 128, 158, 159, 160, 190, 191, 192, 222, 223, 224, 253, 254, 255, 256, 257, 286, 287, 288]
 
 STR_OPS = {"parse": "after_slash", "deser": "after_slash", "zc_parse": "after_slash",
            "from_encoded": "front", "tok_new": "front", "zc_tok": "front"}
@@ -26,6 +28,10 @@ PTR_ARGS = {  # op -> indices of the xHEX arguments that are valid pointers
 }
 
 def _hex(b): return "x" + b.hex()
+def _boundary(b, j):
+    """the first UTF-8 char boundary of `b` at or after byte j"""
+    while j < len(b) and (b[j] & 0xC0) == 0x80: j += 1
+    return j
 def _unhex(a):
     if not a.startswith("x"): return None
     try: return bytes.fromhex(a[1:])
@@ -38,12 +44,17 @@ def variants(line, rng):
     if op in STR_OPS and len(parts) == 2:
         s = _unhex(parts[1])
         if s is None or len(s) > 12: return out
-        for k in KS:
+        for k in KS + (rng.sample(KS_LONG, 8) if len(s) <= 6 else []):
             pad = b"a" * k
             if STR_OPS[op] == "after_slash" and s[:1] == b"/":
                 out.append(f"{op} {_hex(b'/' + pad + s[1:])}")
             else:
                 out.append(f"{op} {_hex(pad + s)}")
+            if k in (30, 62, 126, 254) or k in KS_LONG[:3]:
+                out.append(f"{op} {_hex(s + pad)}")                       # long tail behind the interesting bytes
+            if len(s) >= 3:                                               # padding BETWEEN the interesting bytes
+                j = _boundary(s, 2 if s[:1] != b"/" else 3)
+                out.append(f"{op} {_hex(s[:j] + pad + s[j:])}")
         for a, b in ((b"a", b"."), (b"a", b"}")):
             if a in s: out.append(f"{op} {_hex(s.replace(a, b))}")
         return out
@@ -107,8 +118,12 @@ def variants(line, rng):
         return out
     return out
 
-WORD_ALPHA = [b"/", b".", b"a", b"~", b"0", b"1", b"}", b":", b"~0", b"~1", b"."]
-PTR_ALPHA = [b"/", b"/", b".", b"a", b"a", b"~0", b"~1", b"0", b"-", b"}", b"\xef\xbd\x9e", b"\xf0\x9f\x98\x80"]
+# includes multi-byte chars (so that fixed byte cuts fall inside a char) and chars whose UTF-8 bytes alias the
+# special bytes under a 7-bit mask: Я = D0 AF (AF & 7F = '/'), ° = C2 B0, ± = C2 B1 ('0', '1'), ï = C3 AF
+WORD_ALPHA = [b"/", b".", b"a", b"a", b"~", b"0", b"1", b"}", b":", b"~0", b"~1", b".", b"\xc3\xa9", b"\xe6\x97\xa5",
+              b"\xd0\xaf", b"\xc2\xb0", b"\xc2\xb1"]
+PTR_ALPHA = [b"/", b"/", b".", b"a", b"a", b"~0", b"~1", b"0", b"-", b"}", b"\xef\xbd\x9e", b"\xf0\x9f\x98\x80",
+             b"\xd0\xaf", b"\xc3\xaf", b"\xc2\xb1"]
 
 def _len(rng, lo, hi):
     # mostly word scale (8..24), one in five cache-line / SIMD-block scale (25..140)
@@ -150,7 +165,7 @@ def wordscale(prop, lines, rng, n):
             if STR_OPS[op] == "after_slash" and rng.random() < 0.85: s = b"/" + s
             out.append(f"{op} {_hex(s)}")
         elif op == "index_str":
-            k = rng.randint(7, 20)
+            k = rng.randint(7, 20) if rng.random() < 0.9 else rng.choice([255, 256, 257, 300])
             digs = bytes(rng.choice(b"0123456789") for _ in range(k))
             if rng.random() < 0.8:
                 pos = rng.randrange(k); digs = digs[:pos] + rng.choice([b":", b"/", b";", b"?", b"+", b" "]) + digs[pos + 1:]
@@ -234,7 +249,7 @@ def tree_variants(line, rng, prop):
             out.append(" ".join(q))
         pb = bytes.fromhex(ptr[1:])
         # a long remainder to materialise / to fail on: > 64 tokens behind the original pointer
-        q = list(parts); q[pi] = "x" + (pb + b"/a" * rng.choice([64, 65, 70]) + b"/b").hex(); out.append(" ".join(q))
+        q = list(parts); q[pi] = "x" + (pb + b"/a" * rng.choice([64, 65, 70, 129, 130]) + b"/b").hex(); out.append(" ".join(q))
         # three-digit indices (above 255) and a 20-digit overflow in the last position
         for tok in (b"256", b"299", b"999", b"18446744073709551616"):
             if rng.random() < 0.5:
@@ -299,6 +314,37 @@ def same_length_families(lines, rng, n_templates=60):
                 out.append(" ".join(q))
     return out
 
+def from_tokens_variants(line, rng):
+    parts = line.split(" ")
+    toks = [_unhex(a) for a in parts[1:]]
+    out = []
+    if not toks or any(t is None for t in toks) or sum(len(t) for t in toks) > 40: return out
+    for k in rng.sample(KS + KS_LONG, 6):
+        pad = b"a" * k
+        j = rng.randrange(len(toks)); t = toks[j]
+        for v in (pad + t, t + pad, t[:_boundary(t, 1)] + pad + t[_boundary(t, 1):] if len(t) >= 2 else None):
+            if v is not None:
+                q = list(toks); q[j] = v
+                out.append("from_tokens " + " ".join(_hex(x) for x in q))
+    out.append("from_tokens " + " ".join(_hex(x) for x in (toks * 30)[:140]))       # many tokens
+    return out
+
+def parse_memo_families(lines, rng):
+    """a long string that parses, immediately followed by near-identical strings that must not (same length and
+    — through allocator reuse — plausibly the same address; or sharing a >= 64-byte prefix): what a
+    'recently validated' memo gets wrong"""
+    out = []
+    ops = sorted(set(l.split(" ", 1)[0] for l in lines) & {"parse", "deser", "zc_parse"})
+    for op in ops:
+        for L in (64, 65, 128, 256, 257, 320):
+            good = b"/" + b"a" * (L - 1)
+            g2 = b"/" + (b"ab/" * L)[:L - 1]
+            for g in (good, g2):
+                bads = [g[:-1] + b"~", b"x" + g[1:], g[:L // 2] + b"~" + g[L // 2 + 1:], g + b"~", g[:70] + b"~" + g[70:] if L > 72 else g + b"~x"]
+                for b in bads:
+                    out.append(f"{op} {_hex(g)}"); out.append(f"{op} {_hex(b)}")
+    return out
+
 def augment(prop, lines, seed, budget=40000):
     """extra lines derived from a deterministic sample of `lines`"""
     rng = random.Random(seed * 1000003 + int(prop[1:]))
@@ -313,12 +359,16 @@ def augment(prop, lines, seed, budget=40000):
             if len(out) >= budget: break
         return out
     cand = [l for l in lines if l.split(" ", 1)[0] in STR_OPS or l.split(" ", 1)[0] in PTR_ARGS]
-    if not cand and not any(l.startswith("index_str") for l in lines): return []
+    if not cand and not any(l.startswith(("index_str", "from_tokens")) for l in lines): return []
     # short lines first (the exhaustive scopes), then a random sample
     short = sorted(set(l for l in cand if len(l) <= 24))[:1200]
     rest = rng.sample(cand, min(1800, len(cand))) if cand else []
     seen, out = set(lines), []
     out.extend(same_length_families(lines, rng))     # repeats are the point here: no de-duplication
+    out.extend(parse_memo_families(lines, rng))
+    for l in [x for x in lines if x.startswith("from_tokens ")][:1500]:
+        for v in from_tokens_variants(l, rng):
+            if v not in seen: seen.add(v); out.append(v)
     for v in wordscale(prop, lines, rng, budget // 3):
         if v not in seen:
             seen.add(v); out.append(v)
